@@ -3,7 +3,6 @@
 //! provided default method of GuestMemory / GuestMemoryRegion.
 use crate::types::*;
 use crate::util::*;
-use crate::volatile::verr;
 use serde_json::{json, Value};
 use std::num::NonZeroUsize;
 use std::os::unix::fs::FileExt;
@@ -11,7 +10,7 @@ use std::sync::atomic::Ordering;
 use std::sync::Arc;
 use vm_memory::bitmap::{AtomicBitmap, BS};
 use vm_memory::guest_memory::Error as GErr;
-use vm_memory::mmap::MmapRegionBuilder;
+use crate::mk::make_region;
 use vm_memory::{
     Address, AtomicAccess, Bytes, FileOffset, GuestAddress, GuestMemory, GuestMemoryMmap, GuestMemoryRegion,
     GuestRegionMmap, GuestUsize, MemoryRegionAddress, ReadVolatile, VolatileSlice, WriteVolatile,
@@ -603,18 +602,16 @@ impl Exec for GuestExec {
                 let nz = NonZeroUsize::new(p).expect("harness: p");
                 let mut regions = Vec::new();
                 for (idx, &(st, n)) in lay.iter().enumerate() {
-                    let mut b = MmapRegionBuilder::new_with_bitmap(n as usize, AtomicBitmap::new(n as usize, nz))
-                        .with_mmap_prot(libc::PROT_READ | libc::PROT_WRITE);
-                    if be == "mmapfile" {
+                    let file = if be == "mmapfile" {
                         let path = std::env::temp_dir().join(format!("vmh-guest-{}-{}", std::process::id(), idx));
                         let f = std::fs::OpenOptions::new().read(true).write(true).create(true).truncate(true).open(&path).expect("harness: file");
                         f.set_len(n + 4096).expect("harness: set_len");
                         self.files.push(path);
-                        b = b.with_file_offset(FileOffset::from_arc(Arc::new(f), 4096)).with_mmap_flags(libc::MAP_SHARED | libc::MAP_NORESERVE);
+                        Some(FileOffset::from_arc(Arc::new(f), 4096))
                     } else {
-                        b = b.with_mmap_flags(libc::MAP_ANONYMOUS | libc::MAP_PRIVATE | libc::MAP_NORESERVE);
-                    }
-                    let mr = b.build().expect("harness: build region");
+                        None
+                    };
+                    let mr = make_region(n as usize, nz, file, st);
                     for i in 0..n as usize {
                         unsafe { *mr.as_ptr().add(i) = (i % 251 + 1) as u8 };
                     }
@@ -630,11 +627,7 @@ impl Exec for GuestExec {
                     GuestMemoryMmap::from_regions(regions).expect("harness: from_regions").insert_region(held).expect("harness: insert_region")
                 } else if via == "remove" && lay[0].0 >= 2 {
                     // an extra one-byte region at address 0 is built into the map and removed again
-                    let extra = MmapRegionBuilder::new_with_bitmap(1, AtomicBitmap::new(1, nz))
-                        .with_mmap_prot(libc::PROT_READ | libc::PROT_WRITE)
-                        .with_mmap_flags(libc::MAP_ANONYMOUS | libc::MAP_PRIVATE | libc::MAP_NORESERVE)
-                        .build()
-                        .expect("harness: build region");
+                    let extra = make_region(1, nz, None, 0);
                     regions.insert(0, GuestRegionMmap::new(extra, GuestAddress(0)).expect("harness: extra region"));
                     let (m2, _removed) = GuestMemoryMmap::from_regions(regions).expect("harness: from_regions").remove_region(GuestAddress(0), 1).expect("harness: remove_region");
                     m2
@@ -662,8 +655,3 @@ impl Exec for GuestExec {
     }
 }
 
-#[allow(dead_code)]
-fn _unused(_: &dyn Fn(&vm_memory::volatile_memory::Error) -> Value) {
-    let _ = verr;
-    let _ = GuestAddress(0).raw_value();
-}
